@@ -1240,7 +1240,7 @@ func conditionTypeAliasConverter(u any) (C Condition, converted bool) {
 
 		a, v, _ := derefPtr(typOf(u), valOf(u))
 		b := typOf(Condition{}) // target (dest) type
-		if a.ConvertibleTo(b) {
+		if v.IsValid() && a.ConvertibleTo(b) {
 			X := v.Convert(b).Interface()
 			if assert, ok := X.(Condition); ok {
 				if !assert.IsZero() {
